@@ -96,6 +96,9 @@ structure Pairing where
   real : Bool := false
 deriving Repr
 
+def clsName : Cls → String
+  | .uint => "uint" | .sint => "sint" | .bool => "bool" | .enum => "enum" | .recd => "rec"
+
 /-- Explanation of a failed comparison (empty list = agreement). Used by the driver to print a
 concrete disagreement; the theorems are about `pairOk`. -/
 def pairProblems (cs gs : List Rec) (p : Pairing) : List String :=
@@ -109,7 +112,7 @@ def pairProblems (cs gs : List Rec) (p : Pairing) : List String :=
         | some gl, some cl =>
           if gl.blank then [s!"Go field {nameStr gp} is blank"]
           else if leafAgree gl cl then []
-          else [s!"field {nameStr gp}~{nameStr cp}: Go off={gl.off} esize={gl.esize} count={gl.count} cls={repr gl.cls} | C off={cl.off} esize={cl.esize} count={cl.count} cls={repr cl.cls}"]
+          else [s!"field {nameStr gp}~{nameStr cp}: Go off={gl.off} esize={gl.esize} count={gl.count} cls={clsName gl.cls} | C off={cl.off} esize={cl.esize} count={cl.count} cls={clsName cl.cls}"]
         | none, _ => [s!"Go field {nameStr p.go}.{nameStr gp} not found"]
         | _, none => [s!"C member {nameStr p.c}.{nameStr cp} not found"])
     ++ g.leaves.flatMap (fun gl =>
